@@ -168,7 +168,16 @@ def _normalize_dtype(
     elif not isinstance(dtype, np.dtype):
         dtype = np.dtype(dtype)
     if fill_value not in [None, INF, NINF, NA]:
-        dtype = np.result_type(dtype, fill_value)
+        if (
+            isinstance(fill_value, (int, np.integer))
+            and not isinstance(fill_value, (bool, np.bool_))
+            and dtype.kind in "iu"
+            and not (np.iinfo(dtype).min <= fill_value <= np.iinfo(dtype).max)
+        ):
+            # a Python integer is a weak scalar: it never widens an integer dtype, however large it is
+            dtype = np.result_type(dtype, np.min_scalar_type(fill_value))
+        else:
+            dtype = np.result_type(dtype, fill_value)
     return dtype
 
 
